@@ -135,6 +135,15 @@ class SMUserList(UserList, ABC):
         x.data = [cls._identity() for i in range(n)]  # make n copies of the data
         return x
 
+    def _new(self, data):
+        """
+        New instance of the same class holding the given list of values, which
+        are already values of this instance and are not validated again.
+        """
+        x = self.__class__.Empty()
+        x.data = list(data)
+        return x
+
     def arghandler(self, arg, convertfrom=(), check=True):
         """
         Standard constructor support (SMUserList superclass method)
@@ -292,12 +301,9 @@ class SMUserList(UserList, ABC):
 
         if isinstance(i, slice):
             # same semantics as slicing the underlying Python list
-            data = self.data[i]
-            if len(data) == 0:
-                return self.__class__.Empty()
-            return self.__class__(data)
+            return self._new(self.data[i])
         else:
-            return self.__class__(self.data[i])
+            return self._new([self.data[i]])
         
     def __setitem__(self, i, value):
         """
@@ -456,7 +462,7 @@ class SMUserList(UserList, ABC):
 
         where ``X`` is any of the SMTB classes.
         """
-        return self.__class__(super().pop(i))
+        return self._new([super().pop(i)])
 
     def __add__(self, other):
         """
